@@ -137,6 +137,19 @@ func serve(req *proto.RunReq) (resp *proto.RunResp) {
 		resp.LoadErr = "script: " + err.Error()
 		return
 	}
+	if req.ViaRegistry {
+		mine := map[string]bool{}
+		for _, g := range gens {
+			gengo.Register(g)
+			mine[g.Name()] = true
+		}
+		gens = nil
+		for _, g := range gengo.GetRegisteredGenerators() {
+			if mine[g.Name()] {
+				gens = append(gens, g)
+			}
+		}
+	}
 
 	args := &gengo.GeneratorArgs{
 		Globals:            req.Args.Globals,
